@@ -263,7 +263,7 @@ def mutate(tr, prop, rnd):
                 r["amt"] += 1
             else:
                 r = rnd.choice(rows)
-                r["run"] += 1
+                r["run"] = -5        # (a running sum one unit off can be legitimate among same-instant rows: use an impossible value)
             ok = True
     elif prop == "C05":
         cands = [(k, q) for k, e in enumerate(t["as"]) for q, d in enumerate(e["doc"]["detail"]) if d["lot"] != 0]
@@ -311,7 +311,8 @@ def mutate(tr, prop, rnd):
             if how == 0:
                 del rows[rnd.randrange(len(rows))]
             elif how == 1:
-                rnd.choice(rows)["sheet"] = "Wages" if rows[0]["sheet"] != "Wages" else "Gifts"
+                r = rnd.choice(rows)
+                r["sheet"] = "Wages" if r["sheet"] != "Wages" else "Gifts"
             elif how == 2:
                 rnd.choice(rows)["proc"] += 1
             else:
